@@ -166,7 +166,7 @@ static St *Gp;
 #define G (*Gp)
 
 static int p_req_full, p_notify_deferred, p_fc_toggled, p_max_size_msg, p_backoff, p_early_req, p_early_out, p_emsgsize,
-	p_send_eagain, p_disc_in_msg, p_ref_outlives, p_closed_retry, p_destroy_alive, p_list_walk, p_client_died, p_server_died,
+	p_send_eagain, p_disc_in_msg, p_ref_outlives, p_closed_retry, p_destroy_alive, p_teardown_kill_armed, p_list_walk, p_client_died, p_server_died,
 	p_refused, p_auth_set, p_pollin_checked, p_sendv_recv, p_event_delivered, p_resp_delivered, p_req_delivered, p_kill_fired,
 	p_hostile_conn, p_drain_ok, p_deferred_window, p_owner_checked, p_client_cleanup_checked, p_planted;
 static bool g_avoid_deferred;
@@ -192,6 +192,7 @@ static void init(const char *prop)
 	p_ref_outlives = counter_id("probe", "app_reference_outlives_peer");
 	p_closed_retry = counter_id("probe", "closed_callback_asked_for_retry");
 	p_destroy_alive = counter_id("probe", "service_destroyed_with_live_connections");
+	p_teardown_kill_armed = counter_id("probe", "server_death_armed_inside_connection_teardown");
 	p_list_walk = counter_id("probe", "connection_list_walked");
 	p_client_died = counter_id("probe", "client_process_died");
 	p_server_died = counter_id("probe", "server_process_died");
@@ -461,6 +462,15 @@ static void cb_destroyed(qb_ipcs_connection_t *sc)
 	fire(T_DESTROYED, c);
 }
 
+// C03: the server process dies at its n-th libc call after starting to tear a connection (or the service) down
+static void arm_teardown_kill(int64_t n)
+{
+	ShimCfg &c = shim_cfg();
+	if (which != 3 || n <= 0 || c.kill_spid != G.server_spid || c.kill_countdown > 0) return;
+	c.kill_countdown = n;
+	count(p_teardown_kill_armed);
+}
+
 static void do_server_op(const Op &op, Conn *ctx)
 {
 	ev(420 + (uint32_t)op.kind, ctx ? ctx->id : -1, op.a[3]);
@@ -489,6 +499,7 @@ static void do_server_op(const Op &op, Conn *ctx)
 		if (op.a[4] >= 0 && (size_t)op.a[4] < G.conns.size()) t = &G.conns[(size_t)op.a[4]];
 		if (!t || t->destroyed || !t->created || t->closed_calls > 0 || t->disc_in_created) break;     // legal: a connection the application knows as open
 		if (t->in_created_cb) t->disc_in_created = true;
+		arm_teardown_kill(op.a[5]);
 		qb_ipcs_disconnect(t->sc);
 		break; }
 	case K_S_REF: {
@@ -518,6 +529,7 @@ static void do_server_op(const Op &op, Conn *ctx)
 		for (size_t i = 0; i < G.conns.size(); i++) if (G.conns[i].accept_ok && !G.conns[i].destroyed) alive = true;
 		if (alive) count(p_destroy_alive);
 		G.svc_destroyed = true;
+		arm_teardown_kill(op.a[5]);
 		qb_ipcs_destroy(G.svc);
 		break; }
 	case K_S_CLOSED_RETRY:
@@ -1220,12 +1232,52 @@ static void gen_client_script(Rng &r, Plan &p, int task, int64_t maxm, int w, bo
 // C03 thorough tier: enumerate every crash point of fixed base scenarios (DESIGN.md C03)
 #define ENUM_KILLS 320
 #define ENUM_SCEN 5
-static uint64_t enum_space() { return 3ULL * ENUM_KILLS * ENUM_SCEN * 2 * 2; }
+#define ENUM_TD_KILLS 96
+static uint64_t enum_space1() { return 3ULL * ENUM_KILLS * ENUM_SCEN * 2 * 2; }
+// second block: the server dies at the k-th libc call of a teardown it started itself (2 teardown kinds x 2 transports)
+static uint64_t enum_space() { return enum_space1() + 3ULL * ENUM_TD_KILLS * 2 * 2; }
+
+static void gen_enum_teardown(RunSpec &spec, uint64_t i)
+{
+	Plan &p = spec.plan;
+	int variant = (int)(i % 3); i /= 3;
+	int k = (int)(i % ENUM_TD_KILLS); i /= ENUM_TD_KILLS;
+	int destroy = (int)(i % 2); i /= 2;
+	int transport = (int)(i % 2);
+	p.set("transport", transport);
+	p.set("nclients", 2);
+	p.set("maxm", 4096);
+	p.set("uid0", 1000); p.set("gid0", 1000); p.set("uid1", 1001); p.set("gid1", 1001);
+	p.set("kill_who", 0);
+	p.set("rate_kill", 0);
+	p.set("enum", 1);
+	p.set("scenario", 5 + destroy);
+	p.set("force_seq", variant == 0);
+	const int64_t M = 4096;
+	p.add(1, K_C_CONNECT, M);
+	p.add(1, K_C_SENDV_RECV, 200, 120, 0, 0, 0, 1500);
+	p.add(1, K_C_SLEEP, 60000);
+	p.add(1, K_C_SENDV_RECV, 128, 64, 0, 0, 0, -1);
+	p.add(1, K_C_EVENT_RECV, -1);
+	p.add(1, K_C_RECV, 300);
+	p.add(1, K_C_SEND, 64);
+	p.add(1, K_C_DISCONNECT);
+	p.add(2, K_C_CONNECT, M);
+	p.add(2, K_C_SENDV_RECV, 100, 80, 0, 0, 0, 2000);
+	p.add(2, K_C_SLEEP, 70000);
+	p.add(2, K_C_SENDV_RECV, 101, 81, 0, 0, 0, 2000);
+	p.add(2, K_C_DISCONNECT);
+	if (destroy) p.add(0, K_S_DESTROY, T_TICK, -1, 5, 0, 0, k + 1);
+	else p.add(0, K_S_DISCONNECT, T_TICK, -1, 5, 0, 0, k + 1);
+	spec.explicit_faults = true;     // no other fault
+}
 
 static void gen_enum(RunSpec &spec)
 {
 	Plan &p = spec.plan;
-	uint64_t i = spec.index % enum_space();
+	// a bijection of the index space (7919 is coprime to its size), so that a time-limited prefix samples all of it
+	uint64_t i = (spec.index % enum_space()) * 7919ULL % enum_space();
+	if (i >= enum_space1()) { gen_enum_teardown(spec, i - enum_space1()); return; }
 	int variant = (int)(i % 3); i /= 3;
 	int k = (int)(i % ENUM_KILLS); i /= ENUM_KILLS;
 	int scen = (int)(i % ENUM_SCEN); i /= ENUM_SCEN;
@@ -1335,6 +1387,11 @@ static void gen(const char *prop, RunSpec &spec)
 			int64_t set = r.chance(1, 2);
 			p.add(0, K_S_ACCEPT_POLICY, T_TICK, -1, 0, k, refuse, set ? (MODES[r.below(5)] | ((int64_t)r.below(3) << 16) | ((int64_t)r.below(3) << 24)) : -1);
 		}
+	}
+	if (server_dies && r.chance(1, 3)) {
+		// the server tears a connection (or the whole service) down on its own initiative and dies part-way through
+		if (r.chance(2, 3)) p.add(0, K_S_DISCONNECT, T_TICK, -1, r.range(2, 30), 0, r.below((uint64_t)nc), r.range(1, 60));
+		else p.add(0, K_S_DESTROY, T_TICK, -1, r.range(2, 30), 0, 0, r.range(1, 120));
 	}
 	if (server_dies) p.add(0, K_S_DIE, r.chance(1, 2) ? T_TICK : r.chance(1, 2) ? T_MSG : T_CREATED, -1, r.range(0, 12));
 	if (w == 6) {
